@@ -705,6 +705,7 @@ def run_plan(plan):
                         stopped[0] = True
                         break
                     stats["probe:add_all"] = 1
+                    idx_before = set(m.index)
                     m.index = {q: m.wd_entry(q) for q in m.wd}
                     tick("after_index_write")
                     try:
@@ -713,7 +714,8 @@ def run_plan(plan):
                             viol("roundtrip-tree-id/after-add-all" + (
                                 "/beyond-symlinked-directory" if any(
                                     beyond_link(q) for q in
-                                    set(m.index) | set(m.head)) else ""),
+                                    set(m.index) | set(m.head) | idx_before)
+                                else ""),
                                  f"{label}: index commits to {tid}")
                     except Exception as e:  # noqa: BLE001
                         viol(f"index-commit-raised/{type(e).__name__}",
@@ -736,6 +738,21 @@ def run_plan(plan):
                         stopped[0] = True
                         break
                     cur = m.wd_entry(p)
+                    if cur is None and beyond_link(p):
+                        # git: beyond a symbolic link = gone.  dulwich stages
+                        # what the link's target holds (recorded finding);
+                        # nothing after this can be compared
+                        try:
+                            still = p in r.open_index()
+                        except Exception:  # noqa: BLE001
+                            still = False
+                        if still:
+                            viol("staged-wrong/entry-kept/"
+                                 "beyond-symlinked-directory",
+                                 f"{label}: {p!r} staged through the symlink "
+                                 f"that replaced its directory")
+                            stopped[0] = True
+                            break
                     if cur is None:
                         # WorkTree.stage of a path that is gone, or is now a
                         # (non-repository) directory: the entry is dropped
